@@ -18,6 +18,7 @@ Record hcase := {
   h_calls : list api_call;
   h_obs : trace;                (* what the implementation did *)
   h_extra : list (list tev);    (* event sequences seen by additional tracers *)
+  h_interr : nat;               (* errors received on Machine.ErrInternal() *)
   h_rerun : N                   (* re-executions of the same case: 0 = all identical,
                                    1 = results/times differ, 2 = handler calls differ,
                                    3 = transition records differ *)
@@ -51,7 +52,7 @@ End ListEq.
 Definition callobs_eqb (a b : callobs) : bool :=
   result_eqb (co_result a) (co_result b) && nlist_eqb (co_time a) (co_time b)
   && list_eqb (co_active a) (co_active b) && N.eqb (co_qtick a) (co_qtick b)
-  && Nat.eqb (co_ntx a) (co_ntx b).
+  && Nat.eqb (co_ntx a) (co_ntx b) && N.eqb (co_err a) (co_err b).
 
 Definition txrec_eqb (a b : txrec) : bool :=
   mut_type_eqb (tx_type a) (tx_type b) && list_eqb (tx_called a) (tx_called b)
@@ -76,6 +77,7 @@ Definition hist_mismatch (k : hcase) : list N :=
   if negb (tr_fuel_ok m) then [10%N]
   else if negb (list_eqb (h_topo k) (topo_sort (h_schema k) (h_sorted k))) then [11%N]
   else if negb (Bool.eqb (tr_crashed m) (tr_crashed o)) then [8%N]
+  else if negb (Bool.eqb (tr_hung m) (tr_hung o)) then [12%N]
   else if negb (lists_eqb txrec_eqb (tr_txs m) (tr_txs o)) then
     (if Nat.eqb (length (tr_txs m)) (length (tr_txs o)) then [5%N] else [4%N])
   else if negb (lists_eqb callobs_eqb (tr_calls m) (tr_calls o)) then
